@@ -459,9 +459,10 @@ def model_events(scn):
     """canonical schedule of the worker model for a scenario (times in ticks)"""
     G = scn["graceful"] * T
     ev = []
-    if scn["sig"] != "TERM":
-        return ["WQuit"]
-    ev.append("WTerm")
+    # TERM -> graceful stop, INT / QUIT -> quick stop; either way the master then waits up to graceful_timeout for its workers
+    # and kills what is left, so time passes in the worker after the signal (a gthread worker that was told to quit still
+    # finishes the requests its pool threads are running: the interpreter joins them)
+    ev.append("WTerm" if scn["sig"] == "TERM" else "WQuit")
     t = 0
     owes = scn["phase"] in ("idle", "head", "keep")
     sent = False
